@@ -238,9 +238,10 @@ func VerifC18NoSharedWritesCodecs() {
 	type cs struct{ format, text string }
 	cases := []cs{{"csv", "a,b\n1,2\n"}, {"tsv", "a\tb\n1\t2\n"}, {"uri", "x%20y"}, {"yaml", "a: [1, 2]\n"}, {"xml", ""}, {"props", ""}, {"shell", ""}, {"lua", ""}, {"toml", ""}, {"base64", ""}}
 	c := cases[verifChoice("format", len(cases))]
-	doc := vDoc(vMap(vStr("k"), vSeq(vInt("1"), vStr("v"))))
-	flat := vDoc(vSeq(vSeq(vStr("a"), vInt("1"))))
 	verifShared(func() {
+		// every evaluation has its own documents (printing for an encoder without aliases explodes the document in place)
+		doc := vDoc(vMap(vStr("k"), vSeq(vInt("1"), vStr("v"))))
+		flat := vDoc(vSeq(vSeq(vStr("a"), vInt("1"))))
 		f, err := FormatFromString(c.format)
 		if err != nil {
 			return
@@ -266,4 +267,31 @@ func VerifC18NoSharedWritesCodecs() {
 		}
 	})
 	verifCover("C18/shared-codecs/end")
+}
+
+// VerifC18SharedTree: one parsed expression tree evaluated by several evaluations at once (a service parses its
+// expressions once): evaluation, on documents of its own, stores nothing into the tree or into anything else that
+// existed before it started.
+func VerifC18SharedTree() {
+	InitExpressionParser()
+	i := verifChoice("expr", len(c18ConcurrentExprs))
+	a, b := []string{"1", "2"}[verifChoice("a", 2)], []string{"0", "3"}[verifChoice("b", 2)]
+	expr := c18ConcurrentExprs[i]
+	if strings.HasPrefix(expr, "envsubst") {
+		return
+	}
+	tree, err := ExpressionParser.ParseExpression(expr)
+	if err != nil {
+		return
+	}
+	verifShared(func() {
+		res, err := vEval(tree, c18Doc(a, b))
+		if err != nil {
+			return
+		}
+		var sb strings.Builder
+		printer := NewPrinter(NewYamlEncoder(NewDefaultYamlPreferences()), NewSinglePrinterWriter(bufio.NewWriter(vSBWriter{&sb})))
+		_ = printer.PrintResults(res)
+	})
+	verifCover("C18/shared-tree/end")
 }
